@@ -80,7 +80,8 @@ func c08Get(s *Stack, m *Mat, batchTok, keyTxt string, keyPresent bool) (obs str
 		}
 		q.Set("batchSize", c08JunkBatch[k])
 	default:
-		if _, err := strconv.ParseInt(batchTok, 10, 64); err != nil {
+		// any decimal integer, also beyond int64 (strconv.Atoi then fails with a range error)
+		if !c08IsDecimal(batchTok) {
 			return "BADCASE batch " + batchTok, "", false
 		}
 		q.Set("batchSize", batchTok)
@@ -110,6 +111,26 @@ func c08Get(s *Stack, m *Mat, batchTok, keyTxt string, keyPresent bool) (obs str
 	}
 	return fmt.Sprintf("200/%s/%s/%d/%d", strings.Join(parts, ","), lk, pg.Page.TotalElements, pg.Page.Size), pg.Page.LastEvaluatedKey, true
 }
+
+func c08IsDecimal(t string) bool {
+	if strings.HasPrefix(t, "-") {
+		t = t[1:]
+	}
+	if t == "" {
+		return false
+	}
+	for _, ch := range t {
+		if ch < '0' || ch > '9' {
+			return false
+		}
+	}
+	return true
+}
+
+// batch sizes around and beyond int32 / int64 (2^31-1-h for small h, 2^32-1, 2^31, 2^31+1, 2^32, 2^63-1, and 2^63 which
+// strconv.Atoi rejects)
+var c08HugeBatches = []string{"2147483647", "2147483646", "2147483645", "2147483644", "2147483643", "4294967295", "9223372036854775807",
+	"2147483648", "2147483649", "4294967296", "9223372036854775806", "9223372036854775808"}
 
 func c08KeyText(tok string) (txt string, present bool, err error) {
 	switch tok {
@@ -346,9 +367,26 @@ func runC08(c *Ctx) error {
 	}
 	rng := c.Rng
 	// static store, then: walks for every batch size 0..len+2, every stored root (and unknown strings) as start key
-	static := func(h *History, tag string, allKeys bool) error {
+	static := func(h *History, tag string, allKeys bool, tipHint int) error {
 		ops := subOps(h.Subs)
 		n := len(h.Subs) + 1
+		// walks whose first page is small (key at height k-1) and whose next page asks for a huge batch with that key
+		firsts := []int{1, 2, 3}
+		if tipHint >= 1 {
+			firsts = append(firsts, tipHint, tipHint+1)
+		} else {
+			firsts = append(firsts, 1+rng.Intn(n))
+		}
+		for _, k := range firsts {
+			nb := 1
+			if allKeys {
+				nb = 3
+			}
+			for j := 0; j < nb; j++ {
+				ops = append(ops, qop("z", ""), qop("c", strconv.Itoa(k)), qop("c", c08HugeBatches[rng.Intn(len(c08HugeBatches))]), qop("c", "1"))
+			}
+		}
+		ops = append(ops, qop("z", ""))
 		maxb := n + 2
 		if !allKeys && maxb > 6 {
 			maxb = 6
@@ -373,6 +411,14 @@ func runC08(c *Ctx) error {
 					b = strconv.Itoa(rng.Intn(n + 3))
 				}
 				ops = append(ops, qop("p", b+":"+k))
+			}
+			// every key x huge batch sizes
+			nh := 1
+			if allKeys {
+				nh = 2
+			}
+			for j := 0; j < nh; j++ {
+				ops = append(ops, qop("p", c08HugeBatches[rng.Intn(len(c08HugeBatches))]+":"+k))
 			}
 		}
 		if rng.Intn(25) == 0 {
@@ -404,14 +450,14 @@ func runC08(c *Ctx) error {
 	ExhaustiveHistories(3, []uint32{bitsW2, bitsW4}, func(h *History) {
 		cnt++
 		if eerr == nil && cnt%stride == 0 {
-			eerr = static(h, "exhaustive-3", true)
+			eerr = static(h, "exhaustive-3", true, -1)
 		}
 	})
 	if eerr != nil {
 		return eerr
 	}
 	for n := 1; n <= c.Pick(8, 14); n++ {
-		if err := static(c08ForkEverywhere(rng, n), "fork-at-every-height", true); err != nil {
+		if err := static(c08ForkEverywhere(rng, n), "fork-at-every-height", true, n); err != nil {
 			return err
 		}
 	}
@@ -419,7 +465,7 @@ func runC08(c *Ctx) error {
 	for i := 0; i < nr; i++ {
 		o := GenOpts{N: 2 + rng.Intn(c.Pick(16, 30)), PUnknown: 0.08, PLate: 0.1, PDup: 0.05, PForbidden: 0.1, Positive: true, Deep: i%3 != 0}
 		h := GenHistory(rng, o)
-		if err := static(h, "random", i%4 == 0); err != nil {
+		if err := static(h, "random", i%4 == 0, -1); err != nil {
 			return err
 		}
 	}
@@ -461,7 +507,7 @@ func runC08(c *Ctx) error {
 					}
 				}
 			}
-			if err := static(h, "shared-roots-planted", true); err != nil {
+			if err := static(h, "shared-roots-planted", true, n); err != nil {
 				return err
 			}
 			continue
@@ -486,7 +532,7 @@ func runC08(c *Ctx) error {
 		for j := range h.Subs {
 			h.Subs[j].Merkle = def[h.Subs[j].ID]
 		}
-		if err := static(h, "shared-roots", true); err != nil {
+		if err := static(h, "shared-roots", true, -1); err != nil {
 			return err
 		}
 	}
